@@ -209,6 +209,27 @@ fn lp_mp(m: &Mp) -> ModulationParams {
 fn lp_pp(p: &Pp) -> PacketParams {
     PacketParams { preamble_length: p.preamble, implicit_header: p.implicit, payload_length: p.len, crc_on: p.crc, iq_inverted: p.iq }
 }
+/// creator route: the parameter objects reach the driver the way every user of the LoRa layer obtains
+/// them (RadioKind::create_modulation_params / create_packet_params); the literal is kept where the
+/// creator refuses the request or where the requested LDRO setting is a forced one
+fn lp_mp_via<RK: RadioKind>(r: &RK, m: &Mp) -> ModulationParams {
+    let lit = lp_mp(m);
+    match r.create_modulation_params(lit.spreading_factor, lit.bandwidth, lit.coding_rate, lit.frequency_in_hz) {
+        Ok(created) if m.ldro <= 1 && super::c13_126x::rule_ldro(m.sf, m.bw_hz) == (m.ldro != 0) => created,
+        _ => lit,
+    }
+}
+fn lp_pp_via<RK: RadioKind>(r: &RK, p: &Pp, sf: u8) -> PacketParams {
+    let lit = lp_pp(p);
+    let mp = ModulationParams {
+        spreading_factor: sf_of(sf as u64).unwrap_or(SpreadingFactor::_7),
+        bandwidth: Bandwidth::_125KHz,
+        coding_rate: CodingRate::_4_5,
+        low_data_rate_optimize: 0,
+        frequency_in_hz: 868_100_000,
+    };
+    r.create_packet_params(p.preamble, p.implicit, p.len, p.crc, p.iq, &mp).unwrap_or(lit)
+}
 fn ref_bw(hz: u32) -> u32 {
     match hz {
         7_810 => sys::sx127x_lora_bw_e_SX127X_LORA_BW_007,
@@ -272,12 +293,12 @@ fn lp_exec<RK: RadioKind>(r: &mut RK, case: &Case127) -> Result<(), RadioError> 
             if *armed {
                 block_on(r.init_lora(legacy_to_word(0x34)))?;
             }
-            block_on(r.set_modulation_params(&lp_mp(mp)))
+            block_on(r.set_modulation_params(&lp_mp_via(r, mp)))
         }
         Sc127::Pkt { pp } => {
             block_on(r.set_standby())?;
             block_on(r.set_tx_rx_buffer_base_address(0, 0))?;
-            block_on(r.set_packet_params(&lp_pp(pp)))
+            block_on(r.set_packet_params(&lp_pp_via(r, pp, 6 + (case.seed % 7) as u8)))
         }
         Sc127::Sync { legacy } => block_on(r.set_lora_sync_word(legacy_to_word(*legacy))),
         Sc127::SyncRefuse { word } => block_on(r.set_lora_sync_word(*word)),
@@ -285,7 +306,7 @@ fn lp_exec<RK: RadioKind>(r: &mut RK, case: &Case127) -> Result<(), RadioError> 
         Sc127::Payload { pp } => {
             block_on(r.set_standby())?;
             block_on(r.set_tx_rx_buffer_base_address(0, 0))?;
-            block_on(r.set_packet_params(&lp_pp(pp)))?;
+            block_on(r.set_packet_params(&lp_pp_via(r, pp, 6 + (case.seed % 7) as u8)))?;
             block_on(r.set_payload(&payload(case.seed, pp.len as usize)))
         }
         Sc127::TxPower { dbm, tx_prep } => block_on(r.set_tx_power_and_ramp_time(*dbm, None, *tx_prep)),
@@ -294,8 +315,8 @@ fn lp_exec<RK: RadioKind>(r: &mut RK, case: &Case127) -> Result<(), RadioError> 
             block_on(r.init_lora(legacy_to_word(*legacy)))?;
             block_on(r.set_standby())?;
             block_on(r.set_channel(mp.hz))?;
-            block_on(r.set_modulation_params(&lp_mp(mp)))?;
-            block_on(r.set_packet_params(&lp_pp(pp)))?;
+            block_on(r.set_modulation_params(&lp_mp_via(r, mp)))?;
+            block_on(r.set_packet_params(&lp_pp_via(r, pp, mp.sf)))?;
             block_on(r.set_payload(&payload(case.seed, pp.len as usize)))?;
             block_on(r.set_irq_params(Some(RadioMode::Transmit)))?;
             block_on(r.do_tx())
@@ -308,8 +329,8 @@ fn lp_exec<RK: RadioKind>(r: &mut RK, case: &Case127) -> Result<(), RadioError> 
             block_on(r.init_lora(legacy_to_word(*legacy)))?;
             block_on(r.set_standby())?;
             block_on(r.set_channel(mp.hz))?;
-            block_on(r.set_modulation_params(&lp_mp(mp)))?;
-            block_on(r.set_packet_params(&lp_pp(pp)))?;
+            block_on(r.set_modulation_params(&lp_mp_via(r, mp)))?;
+            block_on(r.set_packet_params(&lp_pp_via(r, pp, mp.sf)))?;
             block_on(r.set_irq_params(Some(RadioMode::Receive(mode))))?;
             block_on(r.do_rx(mode))
         }
